@@ -8,6 +8,13 @@ forged version files, a deleted config file, exceptions under the lock and stale
 left-over marker yields `lockTimeout` deterministically; the `breakStale` flag of a case says whether the installed lock
 library would remove a stale marker (op `breakMarker`).
 
+Crash points (`{"k": "crash", "op": <api op>, "after": k, "lockGone": b}`): the process performing `op` is KILLED right before
+its (k+1)-th file write (config_version.txt / cluster_config.json / job_status_version.txt / job_status.json, in whatever
+order the code writes them; `_serialize_file` counts as one write).  The kill is a BaseException raised from the code's own
+file-writing primitives, so no `except Exception` / re-creation of the lock file runs; the marker of the dead process is
+removed iff `lockGone` (lock library reclaimed it / finalizer ran) and the dead handle is never used again.  Other handles -
+including ones loaded before the torn write - act afterwards.
+
 After EVERY operation the result/exception enum and the parsed content of cluster_config.json, config_version.txt,
 job_status.json, job_status_version.txt (+ `.bk` files, + the lock marker) are compared with the Lean driver.
 """
@@ -53,6 +60,13 @@ class MarkerLock:
             os.unlink(self._f)
         except FileNotFoundError:
             pass
+
+
+class Kill(BaseException):
+    """the process dies here (not an Exception: no handler of the code under test may catch it)"""
+
+
+PRIMITIVES = ["_serialize_config_version", "_serialize_job_status_version", "_serialize_file"]
 
 
 def res_enum(exc):
@@ -134,10 +148,50 @@ class ClusterSuite(Suite):
         self._jc = jc
         self._saved = (jc.SoftFileLock, socket.gethostname)
         jc.SoftFileLock = MarkerLock
+        # kill points: the three file-writing primitives of Cluster; any other write-open of one of the four files
+        # from inside jade.jobs.cluster is recorded (`_unhooked`) and makes the case a harness failure
+        self._kill = None
+        self._in_prim = 0
+        self._unhooked = []
+        self._saved_prims = {n: jc.Cluster.__dict__[n] for n in PRIMITIVES}
+        suite = self
+
+        def gated(orig):
+            def w(*a, **kw):
+                suite._gate()
+                suite._in_prim += 1
+                try:
+                    return orig(*a, **kw)
+                finally:
+                    suite._in_prim -= 1
+            return w
+        for n, raw in self._saved_prims.items():
+            if isinstance(raw, staticmethod):
+                setattr(jc.Cluster, n, staticmethod(gated(raw.__func__)))
+            else:
+                setattr(jc.Cluster, n, gated(raw))
+
+        def guarded_open(file, mode="r", *a, **kw):
+            if any(c in mode for c in "wax+") and os.path.basename(str(file)) in FILES and not suite._in_prim:
+                suite._unhooked.append(os.path.basename(str(file)))
+            return open(file, mode, *a, **kw)
+        jc.open = guarded_open
 
     def teardown(self):
         self._jc.SoftFileLock = self._saved[0]
         socket.gethostname = self._saved[1]
+        for n, raw in getattr(self, "_saved_prims", {}).items():
+            setattr(self._jc.Cluster, n, raw)
+        if "open" in self._jc.__dict__:
+            del self._jc.open
+
+    def _gate(self):
+        """called right before every file write of the code under test"""
+        if self._kill is not None:
+            if self._kill["left"] == 0:
+                self._kill["fired"] = True
+                raise Kill()
+            self._kill["left"] -= 1
 
     # ---------------------------------------------------------------- generation
     def cases(self, rng, tier, prop):
@@ -178,14 +232,23 @@ class ClusterSuite(Suite):
         wellformed = True          # … and every update had well-formed arguments, nothing raised, nothing was forged
         forged = False
         prev_status = self._status(out)
+        sync = {0: {"cfg": raw_files(out)["cluster_config.json"], "js": raw_files(out)["job_status.json"]}}
+        self._unhooked = []
         for op in case["ops"]:
-            k = op["k"]
-            h = op.get("h")
+            crash = op["k"] == "crash"
+            eff = op["op"] if crash else op    # the API call (a crash op wraps the call during which the process dies)
+            k = eff["k"]
+            h = eff.get("h")
             x = handles.get(h) if h is not None else None
             before_raw = raw_files(out)
             before = parse_disk(out)
-            o = {"k": k, "h": h, "holders_before": list(holders), "protocol_before": protocol, "forged_before": forged,
+            o = {"k": k, "h": h, "crash": crash, "holders_before": list(holders), "protocol_before": protocol, "forged_before": forged,
                  "marker_before": before["marker"], "submitter_before": before["cfg"]["submitter"] if before["cfg"] else "missing"}
+            # ---- is the acting handle's copy OLDER THAN THE CONTENTS on disk?  (bytes it last read or wrote vs. bytes now;
+            #      independent of the version files, which a torn write can leave out of step with the contents)
+            if x is not None and h in sync and k != "load":
+                o["cfg_behind"] = sync[h]["cfg"] != before_raw["cluster_config.json"]
+                o["js_behind"] = sync[h]["js"] is not None and x.job_status is not None and sync[h]["js"] != before_raw["job_status.json"]
             # ---- staleness of the acting handle, read off the real object and the real version files
             if x is not None:
                 o["cfg_stale"] = x.config.version != before["cfgVer"]
@@ -203,7 +266,7 @@ class ClusterSuite(Suite):
                 protocol = False
                 forged = True
             if k == "update":
-                o["args_ok"] = x is not None and args_ok(x.job_status, before["js"], op)
+                o["args_ok"] = x is not None and args_ok(x.job_status, before["js"], eff)
                 if not o["args_ok"]:
                     wellformed = False
             if k in ("completeHpcId", "prepareResubmit") and x is not None and x.job_status is not None:
@@ -214,12 +277,33 @@ class ClusterSuite(Suite):
             after = parse_disk(out)
             after_raw = raw_files(out)
             o["changed"] = [f for f in FILES if before_raw[f] != after_raw[f]]
+            # ---- what each handle has seen of the two data files
+            if res == "killed":
+                o["killed"] = True
+                if k != "load":
+                    sync.pop(h, None)
+            elif k == "load" and isinstance(res, dict) and "bool" in res:
+                sync[h] = {"cfg": after_raw["cluster_config.json"] if "cluster_config.json" in o["changed"] else before_raw["cluster_config.json"],
+                           "js": after_raw["job_status.json"] if eff["jobs"] else None}
+            elif h in sync and x is not None:
+                if "cluster_config.json" in o["changed"]:
+                    sync[h]["cfg"] = after_raw["cluster_config.json"]
+                if "job_status.json" in o["changed"] or (k == "deserializeJobs" and res == "ok"):
+                    sync[h]["js"] = after_raw["job_status.json"]
             # ---- holders (after the call)
             if k in ("load", "promote") and res == {"bool": True}:
                 if h not in holders:
                     holders.append(h)
             if k == "demote" and res == "ok" and h in holders:
                 holders.remove(h)
+            if res == "killed":
+                # the dead process is gone; if the submitter field on disk is (still / already) set and no live handle holds
+                # the role, the dead process holds it ("ghost"): nobody may be promoted any more
+                wellformed = False
+                if k != "load" and h in holders:
+                    holders.remove(h)
+                if after["cfg"] is not None and after["cfg"]["submitter"] is not None and not holders:
+                    holders.append(f"dead{len(steps)}")
             if isinstance(res, dict) and "error" in res and res["error"] != "lockTimeout":
                 wellformed = False
             if not protocol:
@@ -237,6 +321,9 @@ class ClusterSuite(Suite):
                 step["summary"] = summary
             steps.append(step)
             obs.append(o)
+        if self._unhooked:
+            raise RuntimeError(f"jade.jobs.cluster wrote {sorted(set(self._unhooked))} outside the file-writing primitives {PRIMITIVES}: "
+                               "the kill points of the suite no longer cover every write")
         return {"model": {"init": init, "steps": steps}, "obs": {"steps": obs, "init_status": prev_status}}
 
     def _status(self, out):
@@ -260,6 +347,21 @@ class ClusterSuite(Suite):
         from jade.models import Job, JobState
         k = op["k"]
         summary = None
+        if k == "crash":
+            inner = op["op"]
+            self._kill = {"left": op["after"], "fired": False}
+            try:
+                return self._do(inner, x, handles, out, case)
+            except Kill:
+                # no finally/except of the dead process matters any more; its lock marker stays unless the lock library
+                # (or the interpreter's finalizers on Ctrl-C) removed it
+                if op["lockGone"] and inner["k"] != "prepareResubmit" and (out / LOCK).exists():
+                    (out / LOCK).unlink()
+                if inner["k"] != "load":
+                    handles.pop(inner.get("h"), None)
+                return "killed", None
+            finally:
+                self._kill = None
         try:
             if k == "load":
                 socket.gethostname = lambda: hostname(op["host"])
@@ -344,9 +446,20 @@ class ClusterSuite(Suite):
             prev_status = last_status
             if o.get("status") is not None:
                 last_status = o["status"]
+            crash = op["k"] == "crash"
+            op = op["op"] if crash else op       # the API call (for a crash op: the call during which the process is killed)
             k, res = op["k"], st["res"]
-            where = f"op #{i} {k} h={op.get('h')}"
+            where = f"op #{i} {k} h={op.get('h')}" + (" (process killed before one of its file writes)" if o.get("killed") else "")
             success = res in ("ok", {"bool": True})
+            # ---- C10 (c'): a handle whose copy is OLDER THAN THE CONTENTS on disk never overwrites them - whatever the version
+            #      files say (they are out of step with the contents after a writer was killed between its file writes)
+            if not o["forged_before"]:
+                if o.get("cfg_behind") and "cluster_config.json" in o["changed"]:
+                    v.append(Violation("C10", "stale.overwrote_newer_config", f"{where}: cluster_config.json had been rewritten by another process "
+                                       f"since this handle read/wrote it, and the handle overwrote it (result {res})"))
+                if o.get("js_behind") and "job_status.json" in o["changed"]:
+                    v.append(Violation("C10", "stale.overwrote_newer_jobstatus", f"{where}: job_status.json had been rewritten by another process "
+                                       f"since this handle read/wrote it, and the handle overwrote it (result {res})"))
             # ---- C10 (a): at most one believer under Protocol; the submitter field is set iff somebody holds the role
             if o["protocol_after"]:
                 if len(o["holders_after"]) > 1:
@@ -407,6 +520,7 @@ class ClusterSuite(Suite):
         prev = result.get("model", {}).get("init")
         for i, (op, st, o) in enumerate(zip(case["ops"], steps, obs)):
             cur = st["disk"]
+            op = op["op"] if op["k"] == "crash" else op
             if op["k"] not in ("forgeCfgVer", "forgeJsVer"):
                 if cur["cfgVer"] < prev["cfgVer"] or cur["jsVer"] < prev["jsVer"]:
                     v.append(Violation("C10", "version.decreased", f"op #{i} {op['k']}: a version file decreased"))
@@ -482,10 +596,26 @@ class ClusterSuite(Suite):
         t.add(f"kind.{case.get('kind', '?')}")
         steps = result.get("model", {}).get("steps", [])
         obs = (result.get("obs") or {}).get("steps", [])
+        crashed = False
         for op, st, o in zip(case["ops"], steps, obs):
+            crash = op["k"] == "crash"
+            if crash:
+                t.add(f"crash.{op['op']['k']}.after{op['after']}." + ("killed" if o.get("killed") else "notReached"))
+                if o.get("killed"):
+                    t.add("crash.lockGone" if op["lockGone"] else "crash.markerStays")
+                    t.add("crash.torn[" + ",".join(sorted(o["changed"])) + "]")
+                op = op["op"]
             k, res = op["k"], st["res"]
             r = res if isinstance(res, str) else ("err." + res["error"] if "error" in res else f"bool.{res['bool']}")
             t.add(f"{k}.{r}")
+            if crashed and not o.get("killed"):
+                if o.get("cfg_stale") and k in CFG_WRITERS:
+                    t.add(f"afterCrash.stale_cfg_write.{r}")
+                if o.get("js_stale") and k in JS_WRITERS:
+                    t.add(f"afterCrash.stale_js_write.{r}")
+                if k == "load" and op["promote"]:
+                    t.add(f"afterCrash.load_promote.{r}")
+            crashed = crashed or bool(o.get("killed"))
             if o.get("cfg_stale") and k in CFG_WRITERS:
                 t.add("stale.cfg.write_attempt")
             if o.get("js_stale") and not o.get("cfg_stale") and k in JS_WRITERS:
@@ -507,6 +637,11 @@ class ClusterSuite(Suite):
         if len(ops) > 1:
             yield dict(case, ops=ops[: len(ops) // 2])
         for i, op in enumerate(ops):
+            if op["k"] == "crash" and op["op"]["k"] == "update":
+                inner = op["op"]
+                for f in ("submitted", "blocked", "canceled", "completed", "hpcIds"):
+                    if inner[f]:
+                        yield dict(case, ops=ops[:i] + [dict(op, op=dict(inner, **{f: inner[f][:-1]}))] + ops[i + 1:])
             if op["k"] == "update":
                 for f in ("submitted", "blocked", "canceled", "completed", "hpcIds"):
                     if op[f]:
